@@ -13,7 +13,7 @@ META = {
                         "keyword table) and K=3 over the reduced alphabet (one representative per line kind, ~30 lines), entry points "
                         "feature/rule/scenario/steps and tags (1 line); languages en + 2 seeded; fault injection: catalogued fault kinds at "
                         "every position of valid rendered documents",
-               "thorough": "K<=3 full alphabet, K<=5 reduced alphabet (sharded by first line), 8 languages at K<=2, more documents for fault injection"},
+               "thorough": "K<=3 full alphabet, K<=4 reduced alphabet (sharded by first line), 8 languages at K<=2, fault injection with filler lines"},
     "outside": ["characters outside the alphabet's names/cells (free-form character-level text is not symbolic)", "documents longer than K lines except through fault injection into rendered documents",
                 "parse_file I/O errors"],
     "assumptions": ["a document is represented by an object whose splitlines() returns the symbolic lines (the parser uses nothing else of the text)"],
@@ -79,7 +79,7 @@ def jobs(tier, seed):
     n = len(gherkin.sigma("en"))
     ns = len(gherkin.sigma("en", small=True))
     # full alphabet: K<=2 (quick) / K<=3 (thorough); reduced alphabet (one representative per line kind): K=3 / K=4,5
-    plan = [(1, False), (2, False), (3, True)] if tier == "quick" else [(1, False), (2, False), (3, False), (4, True), (5, True)]
+    plan = [(1, False), (2, False), (3, True)] if tier == "quick" else [(1, False), (2, False), (3, False), (4, True)]
     for entry in ENTRY:
         for k, small in plan:
             shards = [None]
